@@ -15,6 +15,7 @@ import (
 	"sync"
 	"sync/atomic"
 	"testing"
+	"testing/synctest"
 	"time"
 
 	"github.com/DataDog/datadog-go/v5/statsd"
@@ -433,6 +434,112 @@ func queueGaugeCase(idx int64, r *rand.Rand) {
 		return
 	}
 	rt.Distinct(fmt.Sprintf("queue|%d|%s", size, ord))
+}
+
+// queueGaugeDynamic: the queue_size gauge while callers come and go, including a caller whose backlog time-out (or
+// cancellation, with eviction on) fires at the very instant a release hands it the token.  At every quiescent point
+// the gauge is the number of callers still blocked; at the end it is 0.
+func queueGaugeDynamic(t *testing.T, idx int64, r *rand.Rand) {
+	var sig string
+	var detail rt.J
+	ord := []limiter.QueueOrdering{limiter.OrderingFIFO, limiter.OrderingLIFO}[r.IntN(2)]
+	evict := r.IntN(2) == 0
+	T := time.Duration(5+r.IntN(50)) * time.Millisecond
+	nW := 2 + r.IntN(3)
+	mode := []string{"release-at-timeout-instant", "cancel-and-release-together", "plain"}[r.IntN(3)]
+	if mode == "cancel-and-release-together" {
+		evict = true
+	}
+	rt.Bubble(func() {
+		synctest.Test(t, func(t *testing.T) {
+			reg := inject.NewRecRegistry()
+			dl, _ := limiter.NewDefaultLimiter(limit.NewFixedLimit("q", 1, nil), 1e9, 1e9, 1e5, 100, strategy.NewSimpleStrategy(1), nil, core.EmptyMetricRegistryInstance)
+			q := limiter.NewQueueBlockingLimiterFromConfig(dl, limiter.QueueLimiterConfig{Ordering: ord, MaxBacklogSize: 10, MaxBacklogTimeout: T, BacklogEvictDoneCtx: evict, MetricRegistry: reg})
+			holder, ok := q.Acquire(context.Background())
+			if !ok {
+				panic("c20: first unit refused")
+			}
+			type wt struct {
+				done   atomic.Bool
+				ok     bool
+				l      core.Listener
+				cancel context.CancelFunc
+			}
+			var ws []*wt
+			blocked := func() int {
+				n := 0
+				for _, w := range ws {
+					if !w.done.Load() {
+						n++
+					}
+				}
+				return n
+			}
+			check := func(tag string) {
+				synctest.Wait()
+				g, ok := reg.GaugeByPrefix(core.MetricQueueSize)
+				rt.Count("queue_size_gauge_reads_at_quiescence", 1)
+				if sig == "" && (!ok || g != float64(blocked())) {
+					sig, detail = "queue-size-gauge-differs-from-blocked-callers", rt.J{"at": tag, "gauge": g, "callers_blocked": blocked()}
+				}
+			}
+			for i := 0; i < nW; i++ {
+				ctx, cancel := context.WithCancel(context.Background())
+				w := &wt{cancel: cancel}
+				ws = append(ws, w)
+				go func() { w.l, w.ok = q.Acquire(ctx); w.done.Store(true) }()
+				synctest.Wait()
+				if i == 0 {
+					time.Sleep(time.Millisecond) // the first caller's time-out is the earliest, and alone at its instant
+				}
+			}
+			check("after-arrivals")
+			head := ws[0]
+			if ord == limiter.OrderingLIFO {
+				head = ws[len(ws)-1]
+			}
+			switch mode {
+			case "release-at-timeout-instant":
+				if ord == limiter.OrderingFIFO {
+					time.Sleep(T - time.Millisecond) // now = arrival of the first caller + T
+				} else {
+					time.Sleep(T) // the newest caller arrived 1 ms later... every older one has just timed out or does so now
+				}
+			case "cancel-and-release-together":
+				head.cancel()
+			}
+			holder.OnSuccess()
+			check("after-release")
+			// complete whatever was granted, until nobody holds anything; let every time-out pass
+			for round := 0; round < nW+2; round++ {
+				for _, w := range ws {
+					if w.done.Load() && w.ok && w.l != nil {
+						w.l.OnSuccess()
+						w.l = nil
+					}
+				}
+				check("after-completions")
+			}
+			time.Sleep(2 * T)
+			check("after-every-time-out")
+			for _, w := range ws {
+				if w.done.Load() && w.ok && w.l != nil {
+					w.l.OnSuccess()
+					w.l = nil
+				}
+				w.cancel()
+			}
+			check("end")
+		})
+	}, "C20")
+	rt.Count("queue_gauge_dynamic_cases", 1)
+	cfg := rt.J{"ordering": ord, "evict": evict, "timeout": T.String(), "waiters": nW, "mode": mode}
+	if sig != "" {
+		detail["config"] = cfg
+		rt.Violation("C20/queue/"+sig, idx, detail)
+		return
+	}
+	rt.Distinct(fmt.Sprintf("qdyn|%v", cfg))
 }
 
 // ---------------------------------------------------------------- B1/B2: bundled registries forward samples
@@ -1060,6 +1167,8 @@ func TestCheck(t *testing.T) {
 		switch m := idx % 24; {
 		case idx%48 == 19:
 			gaugePollCase(idx, r)
+		case idx%48 == 17:
+			queueGaugeDynamic(t, idx, r)
 		case idx%96 == 43:
 			addrCase(idx, r)
 		case m == 0:
